@@ -3,26 +3,28 @@
 receiver, every receiver-method call statement, every `return`, the `case` labels, and every loop in
 full.  `Props.C17.facts_*` compare these tables with `Gen.EditorBodies`, which the extractor
 regenerates from /repo on every run: dropping, adding or changing a state update (a `tf.n = …`
-recount, the `tf.cursor = …` of the insert, `m.resegment()`, a loop guard) breaks a theorem. -/
+recount, the `tf.cursor = …` of the insert, `m.resegment()`, a loop guard) breaks a theorem.
+Since round 4 the texts are printed with the function's own variables renamed (receiver `tf` / `m`, parameters `p0…`,
+locals `l0…` in order of declaration): renaming a variable is silent. -/
 namespace VaxisModel.Lemmas.EditorBodies
 
 /-- state writes, receiver calls, returns and loops of TextField.HandleEvent (vxfw/textfield/textfield.go), in source order -/
 def tfHandleEvent : List String := [
   "case vaxis.Key:",
   "return nil, nil",
-  "cmd := tf.InsertStringAtCursor(ev.Text)",
-  "return tf.checkChanged(cmd, pre)",
+  "l1 := tf.InsertStringAtCursor(p0.Text)",
+  "return tf.checkChanged(l1, l0)",
   "return tf.CursorTo(0), nil",
   "return tf.CursorTo(tf.n), nil",
   "return tf.CursorTo(tf.cursor + 1), nil",
   "return nil, nil",
   "return tf.CursorTo(tf.cursor - 1), nil",
-  "cmd := tf.DeleteCharRightOfCursor()",
-  "return tf.checkChanged(cmd, pre)",
-  "cmd := tf.DeleteCharLeftOfCursor()",
-  "return tf.checkChanged(cmd, pre)",
-  "cmd := tf.DeleteCursorToEndOfLine()",
-  "return tf.checkChanged(cmd, pre)",
+  "l1 := tf.DeleteCharRightOfCursor()",
+  "return tf.checkChanged(l1, l0)",
+  "l1 := tf.DeleteCharLeftOfCursor()",
+  "return tf.checkChanged(l1, l0)",
+  "l1 := tf.DeleteCursorToEndOfLine()",
+  "return tf.checkChanged(l1, l0)",
   "defer tf.Reset()",
   "return tf.OnSubmit(tf.Value)",
   "return vxfw.ConsumeAndRedraw(), nil",
@@ -31,11 +33,11 @@ def tfHandleEvent : List String := [
 
 /-- state writes, receiver calls, returns and loops of TextField.checkChanged (vxfw/textfield/textfield.go), in source order -/
 def tfCheckChanged : List String := [
-  "return cmd, nil",
-  "cmd2, err := tf.OnChange(tf.Value)",
-  "return nil, err",
-  "return []vxfw.Command{cmd, cmd2}, nil",
-  "return cmd, nil"
+  "return p0, nil",
+  "l0, l1 := tf.OnChange(tf.Value)",
+  "return nil, l1",
+  "return []vxfw.Command{p0, l0}, nil",
+  "return p0, nil"
 ]
 
 /-- state writes, receiver calls, returns and loops of TextField.Reset (vxfw/textfield/textfield.go), in source order -/
@@ -47,7 +49,7 @@ def tfReset : List String := [
 
 /-- state writes, receiver calls, returns and loops of TextField.InsertStringAtCursor (vxfw/textfield/textfield.go), in source order -/
 def tfInsertStringAtCursor : List String := [
-  "tf.insertStringAtCursor(s)",
+  "tf.insertStringAtCursor(p0)",
   "tf.n = graphemeCountInString(tf.Value)",
   "return vxfw.ConsumeAndRedraw()"
 ]
@@ -55,23 +57,23 @@ def tfInsertStringAtCursor : List String := [
 /-- state writes, receiver calls, returns and loops of TextField.CursorTo (vxfw/textfield/textfield.go), in source order -/
 def tfCursorTo : List String := [
   "return nil",
-  "tf.cursor = i",
+  "tf.cursor = p0",
   "return vxfw.ConsumeAndRedraw()"
 ]
 
 /-- state writes, receiver calls, returns and loops of TextField.DeleteCharRightOfCursor (vxfw/textfield/textfield.go), in source order -/
 def tfDeleteCharRightOfCursor : List String := [
   "return nil",
-  "for len(rest) > 0 {",
-  "cluster, rest, _, state = uniseg.FirstGraphemeClusterInString(rest, state)",
-  "if i == tf.cursor {",
-  "i += 1",
+  "for len(l1) > 0 {",
+  "l0, l1, _, l2 = uniseg.FirstGraphemeClusterInString(l1, l2)",
+  "if l3 == tf.cursor {",
+  "l3 += 1",
   "continue",
   "}",
-  "i += 1",
-  "next.WriteString(cluster)",
+  "l3 += 1",
+  "l4.WriteString(l0)",
   "}",
-  "tf.Value = next.String()",
+  "tf.Value = l4.String()",
   "tf.n = graphemeCountInString(tf.Value)",
   "return vxfw.ConsumeAndRedraw()"
 ]
@@ -79,15 +81,15 @@ def tfDeleteCharRightOfCursor : List String := [
 /-- state writes, receiver calls, returns and loops of TextField.DeleteCharLeftOfCursor (vxfw/textfield/textfield.go), in source order -/
 def tfDeleteCharLeftOfCursor : List String := [
   "return nil",
-  "for len(rest) > 0 {",
-  "cluster, rest, _, state = uniseg.FirstGraphemeClusterInString(rest, state)",
-  "i += 1",
-  "if i == tf.cursor {",
+  "for len(l1) > 0 {",
+  "l0, l1, _, l2 = uniseg.FirstGraphemeClusterInString(l1, l2)",
+  "l3 += 1",
+  "if l3 == tf.cursor {",
   "continue",
   "}",
-  "next.WriteString(cluster)",
+  "l4.WriteString(l0)",
   "}",
-  "tf.Value = next.String()",
+  "tf.Value = l4.String()",
   "tf.n = graphemeCountInString(tf.Value)",
   "tf.cursor -= 1",
   "return vxfw.ConsumeAndRedraw()"
@@ -96,15 +98,15 @@ def tfDeleteCharLeftOfCursor : List String := [
 /-- state writes, receiver calls, returns and loops of TextField.DeleteCursorToEndOfLine (vxfw/textfield/textfield.go), in source order -/
 def tfDeleteCursorToEndOfLine : List String := [
   "return nil",
-  "for len(rest) > 0 {",
-  "cluster, rest, _, state = uniseg.FirstGraphemeClusterInString(rest, state)",
-  "if i == tf.cursor {",
+  "for len(l1) > 0 {",
+  "l0, l1, _, l2 = uniseg.FirstGraphemeClusterInString(l1, l2)",
+  "if l3 == tf.cursor {",
   "break",
   "}",
-  "i += 1",
-  "next.WriteString(cluster)",
+  "l3 += 1",
+  "l4.WriteString(l0)",
   "}",
-  "tf.Value = next.String()",
+  "tf.Value = l4.String()",
   "tf.n = graphemeCountInString(tf.Value)",
   "return vxfw.ConsumeAndRedraw()"
 ]
@@ -112,51 +114,51 @@ def tfDeleteCursorToEndOfLine : List String := [
 /-- state writes, receiver calls, returns and loops of TextField.Draw (vxfw/textfield/textfield.go), in source order -/
 def tfDraw : List String := [
   "return vxfw.Surface{}, nil",
-  "for len(rest) > 0 {",
-  "cluster, rest, _, state = uniseg.FirstGraphemeClusterInString(rest, state)",
-  "for _, char := range ctx.Characters(cluster) {",
-  "cell := vaxis.Cell{ Character: char, Style: tf.Style, }",
-  "s.WriteCell(col, 0, cell)",
-  "col += uint16(char.Width)",
+  "for len(l4) > 0 {",
+  "l3, l4, _, l5 = uniseg.FirstGraphemeClusterInString(l4, l5)",
+  "for _, l6 := range p0.Characters(l3) {",
+  "l7 := vaxis.Cell{ Character: l6, Style: tf.Style, }",
+  "l0.WriteCell(l2, 0, l7)",
+  "l2 += uint16(l6.Width)",
   "}",
-  "i += 1",
-  "if i == tf.cursor {",
-  "s.Cursor.Col = col",
+  "l1 += 1",
+  "if l1 == tf.cursor {",
+  "l0.Cursor.Col = l2",
   "}",
   "}",
-  "return s, nil"
+  "return l0, nil"
 ]
 
 /-- state writes, receiver calls, returns and loops of TextField.insertStringAtCursor (vxfw/textfield/textfield.go), in source order -/
 def tfInsertLoop : List String := [
   "for {",
-  "if len(rest) > 0 && i < tf.cursor {",
-  "cluster, rest, _, state = uniseg.FirstGraphemeClusterInString(rest, state)",
-  "next.WriteString(cluster)",
-  "i += 1",
+  "if len(l1) > 0 && l3 < tf.cursor {",
+  "l0, l1, _, l2 = uniseg.FirstGraphemeClusterInString(l1, l2)",
+  "l4.WriteString(l0)",
+  "l3 += 1",
   "continue",
   "}",
-  "next.WriteString(s)",
-  "tf.cursor = graphemeCountInString(next.String())",
-  "next.WriteString(rest)",
+  "l4.WriteString(p0)",
+  "tf.cursor = graphemeCountInString(l4.String())",
+  "l4.WriteString(l1)",
   "break",
   "}",
-  "tf.Value = next.String()"
+  "tf.Value = l4.String()"
 ]
 
 /-- statement skeleton of graphemeCountInString -/
 def tfGraphemeCount : List String := [
-  "var ( rest = s state = -1 count uint = 0 )",
-  "for len(rest) > 0 {",
-  "_, rest, _, state = uniseg.FirstGraphemeClusterInString(rest, state)",
-  "count += 1",
+  "var ( l0 = p0 l1 = -1 l2 uint = 0 )",
+  "for len(l0) > 0 {",
+  "_, l0, _, l1 = uniseg.FirstGraphemeClusterInString(l0, l1)",
+  "l2 += 1",
   "}",
-  "return count"
+  "return l2"
 ]
 
 /-- state writes, receiver calls, returns and loops of textinput.Model.SetContent (widgets/textinput/textinput.go), in source order -/
 def tiSetContent : List String := [
-  "m.content = vaxis.Characters(s)",
+  "m.content = vaxis.Characters(p0)",
   "m.cursor = len(m.content)",
   "return m"
 ]
@@ -164,12 +166,12 @@ def tiSetContent : List String := [
 /-- state writes, receiver calls, returns and loops of textinput.Model.Update (widgets/textinput/textinput.go), in source order -/
 def tiUpdate : List String := [
   "case vaxis.PasteEndEvent:",
-  "m.content = slices.Insert(m.content, m.cursor, chars...)",
-  "m.cursor += len(chars)",
+  "m.content = slices.Insert(m.content, m.cursor, l0...)",
+  "m.cursor += len(l0)",
   "m.paste = []rune{}",
   "case vaxis.Key:",
   "return",
-  "m.paste = append(m.paste, []rune(msg.Text)...)",
+  "m.paste = append(m.paste, []rune(p0.Text)...)",
   "return",
   "case \"Ctrl+a\", \"Home\":",
   "m.cursor = 0",
@@ -180,15 +182,15 @@ def tiUpdate : List String := [
   "case \"Ctrl+b\", \"Left\":",
   "m.cursor -= 1",
   "case \"Alt+f\", \"Ctrl+Right\":",
-  "for i := m.cursor; i < len(m.content); i += 1 {",
-  "if !isAlphaNumeric(m.content[i]) {",
+  "for l1 := m.cursor; l1 < len(m.content); l1 += 1 {",
+  "if !isAlphaNumeric(m.content[l1]) {",
   "m.cursor += 1",
   "continue",
   "}",
   "break",
   "}",
-  "for i := m.cursor; i < len(m.content); i += 1 {",
-  "if isAlphaNumeric(m.content[i]) {",
+  "for l1 := m.cursor; l1 < len(m.content); l1 += 1 {",
+  "if isAlphaNumeric(m.content[l1]) {",
   "m.cursor += 1",
   "continue",
   "}",
@@ -197,15 +199,15 @@ def tiUpdate : List String := [
   "case \"Alt+b\", \"Ctrl+Left\":",
   "m.cursor -= 1",
   "m.cursor = len(m.content) - 1",
-  "for i := m.cursor; i >= 0; i -= 1 {",
-  "if !isAlphaNumeric(m.content[i]) {",
+  "for l1 := m.cursor; l1 >= 0; l1 -= 1 {",
+  "if !isAlphaNumeric(m.content[l1]) {",
   "m.cursor -= 1",
   "continue",
   "}",
   "break",
   "}",
-  "for i := m.cursor; i >= 0; i -= 1 {",
-  "if isAlphaNumeric(m.content[i]) {",
+  "for l1 := m.cursor; l1 >= 0; l1 -= 1 {",
+  "if isAlphaNumeric(m.content[l1]) {",
   "m.cursor -= 1",
   "continue",
   "}",
@@ -232,15 +234,15 @@ def tiUpdate : List String := [
   "m.cursor -= 1",
   "case \"Ctrl+w\":",
   "return",
-  "for i := m.cursor - 1; i >= 0; i-- {",
-  "if !isAlphaNumeric(m.content[i]) {",
+  "for l1 := m.cursor - 1; l1 >= 0; l1-- {",
+  "if !isAlphaNumeric(m.content[l1]) {",
   "m.cursor--",
   "continue",
   "}",
   "break",
   "}",
-  "for i := m.cursor - 1; i >= 0; i-- {",
-  "if isAlphaNumeric(m.content[i]) {",
+  "for l1 := m.cursor - 1; l1 >= 0; l1-- {",
+  "if isAlphaNumeric(m.content[l1]) {",
   "m.cursor--",
   "continue",
   "}",
@@ -251,8 +253,8 @@ def tiUpdate : List String := [
   "return",
   "return",
   "return",
-  "for _, char := range chars {",
-  "m.content = slices.Insert(m.content, m.cursor, char)",
+  "for _, l3 := range l0 {",
+  "m.content = slices.Insert(m.content, m.cursor, l3)",
   "m.cursor += 1",
   "}",
   "m.cursor = len(m.content)",
@@ -263,46 +265,46 @@ def tiUpdate : List String := [
 /-- state writes, receiver calls, returns and loops of textinput.Model.resegment (widgets/textinput/textinput.go), in source order -/
 def tiResegment : List String := [
   "m.content = vaxis.Characters(m.String())",
-  "m.cursor = len(vaxis.Characters(before.String()))"
+  "m.cursor = len(vaxis.Characters(l0.String()))"
 ]
 
 /-- state writes, receiver calls, returns and loops of textinput.Model.Draw (widgets/textinput/textinput.go), in source order -/
 def tiDraw : List String := [
   "return",
-  "for _, char := range m.prompt {",
-  "cell := vaxis.Cell{ Character: char, Style: m.Prompt, }",
-  "win.SetCell(col, 0, cell)",
-  "col += char.Width",
-  "if col >= winW {",
+  "for _, l2 := range m.prompt {",
+  "l3 := vaxis.Cell{ Character: l2, Style: m.Prompt, }",
+  "p0.SetCell(l1, 0, l3)",
+  "l1 += l2.Width",
+  "if l1 >= l0 {",
   "return",
   "}",
   "}",
   "m.offset = 0",
-  "for m.offset < m.cursor && widthToCursor(chars, m.cursor, m.offset)+col+scrolloff >= winW {",
+  "for m.offset < m.cursor && widthToCursor(l4, m.cursor, m.offset)+l1+scrolloff >= l0 {",
   "m.offset += 1",
   "}",
   "m.offset = m.cursor - scrolloff",
   "m.offset = 0",
-  "for i, char := range m.content {",
-  "if i < m.offset {",
+  "for l6, l2 := range m.content {",
+  "if l6 < m.offset {",
   "continue",
   "}",
-  "if i+1 == m.cursor {",
-  "cursor = col + char.Width",
+  "if l6+1 == m.cursor {",
+  "l5 = l1 + l2.Width",
   "}",
-  "cell := vaxis.Cell{ Character: char, Style: m.Content, }",
+  "l3 := vaxis.Cell{ Character: l2, Style: m.Content, }",
   "if m.invisibleChar.Grapheme != \"\" {",
-  "cell.Character = m.invisibleChar",
+  "l3.Character = m.invisibleChar",
   "}",
-  "if m.offset > 0 && i == m.offset {",
-  "cell.Character = truncator",
+  "if m.offset > 0 && l6 == m.offset {",
+  "l3.Character = truncator",
   "}",
-  "if col+char.Width >= winW {",
-  "cell.Character = truncator",
+  "if l1+l2.Width >= l0 {",
+  "l3.Character = truncator",
   "}",
-  "win.SetCell(col, 0, cell)",
-  "col += char.Width",
-  "if col >= winW {",
+  "p0.SetCell(l1, 0, l3)",
+  "l1 += l2.Width",
+  "if l1 >= l0 {",
   "break",
   "}",
   "}"
@@ -310,11 +312,11 @@ def tiDraw : List String := [
 
 /-- statement skeleton of isAlphaNumeric -/
 def tiIsAlphaNumeric : List String := [
-  "runes := []rune(c.Grapheme)",
-  "if len(runes) > 1 {",
+  "l0 := []rune(p0.Grapheme)",
+  "if len(l0) > 1 {",
   "return false",
   "}",
-  "if unicode.IsLetter(runes[0]) || unicode.IsNumber(runes[0]) {",
+  "if unicode.IsLetter(l0[0]) || unicode.IsNumber(l0[0]) {",
   "return true",
   "}",
   "return false"
@@ -322,17 +324,17 @@ def tiIsAlphaNumeric : List String := [
 
 /-- statement skeleton of widthToCursor -/
 def tiWidthToCursor : List String := [
-  "w := 0",
-  "for i, ch := range chars {",
-  "if i < offset {",
+  "l0 := 0",
+  "for l1, l2 := range p0 {",
+  "if l1 < p2 {",
   "continue",
   "}",
-  "w += ch.Width",
-  "if i == cursor {",
+  "l0 += l2.Width",
+  "if l1 == p1 {",
   "break",
   "}",
   "}",
-  "return w"
+  "return l0"
 ]
 
 end VaxisModel.Lemmas.EditorBodies
